@@ -52,7 +52,12 @@ class Builder:
         if spec.get('kwbind'):
             # explicit factory with keyword bindings: Function(f, 'a', name='b')
             from connectome.interface.edges import Function
-            f = Function(f, *spec.get('posbind', []), **spec['kwbind'])
+            from connectome.interface.nodes import Silent
+            # `kworder`: the order in which the keyword bindings are written down; `kwsilent` / `possilent`: bindings wrapped in Silent
+            order = spec.get('kworder') or list(spec['kwbind'])
+            kws = {k: (Silent(spec['kwbind'][k]) if k in spec.get('kwsilent', []) else spec['kwbind'][k]) for k in order}
+            pos = [Silent(a) if i in spec.get('possilent', []) else a for i, a in enumerate(spec.get('posbind', []))]
+            f = Function(f, *pos, **kws)
         if spec.get('byvalue') and not spec.get('byvalue_outer'):
             f = hash_by_value(f)
         if spec.get('impure'):
@@ -147,6 +152,8 @@ class Builder:
             layer = c.CacheToRam(d.get('names'), size=d.get('size'), impure=bool(d.get('impure')))
             self.ram_layers.append(layer)
             return layer
+        if k == 'disk' and d.get('algo'):
+            return self._disk_algo(d)
         if k == 'disk':
             if d.get('json_labels'):
                 self._init_roots(self.roots[d['root']], labels='JsonLabels')
@@ -192,6 +199,19 @@ class Builder:
             p = os.path.join(root, name)
             if not os.path.exists(os.path.join(p, 'config.yml')):
                 init_storage(StorageConfig(hash='sha256', levels=[1, 31], labels=labels), p)
+
+    def _disk_algo(self, d):
+        """CacheToDisk on a storage the user configured with another digest algorithm (blake2s, sha512, ...)"""
+        from tarn import DiskDict, HashKeyStorage
+        from tarn.config import StorageConfig, init_storage
+        from connectome.serializers import ChainSerializer, JsonSerializer, PickleSerializer
+        root = self.roots[d['root']]
+        index, storage = os.path.join(root, 'index'), os.path.join(root, 'storage')
+        for p in (index, storage):
+            if not os.path.exists(os.path.join(p, 'config.yml')):
+                os.makedirs(root, exist_ok=True)
+                init_storage(StorageConfig(hash=d['algo'], levels=[1, -1]), p)
+        return self.c.CacheToDisk(index, HashKeyStorage(DiskDict(storage)), ChainSerializer(JsonSerializer(), PickleSerializer()), d['names'])
 
     def _disk_impure(self, d):
         c = self.c
